@@ -156,7 +156,7 @@ def static_programs(tier):
                 if got:
                     progs.extend(got)
                     break
-        quick_objs = ("o_simple", "o_rect", "o_face3", "o_size", "o_shape", "o_require", "o_mutate", "o_2d", "o_choice", "o_workspace")
+        quick_objs = ("o_simple", "o_rect", "o_box", "o_face3", "o_size", "o_shape", "o_require", "o_mutate", "o_2d", "o_choice", "o_workspace")
         progs.extend(p for p in OBJECT_PROGRAMS if p[0] in quick_objs)
     else:
         progs.extend(_atom_programs(ATOMS, SLOTS))
